@@ -85,14 +85,14 @@ def p_first(L, form):
         cover("rejected")
 
 
-def p_close(n):
+def p_close(n, skip=False):
     """close frame with an arbitrary 16-bit status code and an n-byte arbitrary reason"""
     quiet_logging()
     Proto, Payload, Closed = _excs()
     code = sx.sym_int("code", 16)
     reason = sx.sym_bytes("r", n)
     sock = FakeSock([server_frame(1, 8, sx.to_bytes_be(code, 2) + reason), "eof"])
-    ws = new_ws(sock)
+    ws = new_ws(sock, skip_utf8_validation=skip)
     try:
         op, fr = ws.recv_data_frame(True)
         res = "frame"
@@ -103,7 +103,7 @@ def p_close(n):
     except Exception as e:
         sx.require(False, "receive raised %s" % type(e).__name__, n=n)
         return
-    ok = sx.And(_code_ok(code), sx.utf8_valid(reason) if n else True)
+    ok = sx.And(_code_ok(code), sx.utf8_valid(reason) if (n and not skip) else True)
     dontcare = sx.And(code >= 1012, code <= 1014)
     sx.require(sx.Or(dontcare, sx.Iff(res == "frame", ok)),
                "close frame accepted exactly for wire-legal status codes with a well-formed UTF-8 reason", n=n, got=res)
@@ -220,7 +220,7 @@ def obligations(tier):
                           "close code a 16-bit variable where the body has one",
                    must_cover=["delivered", "rejected", "waiting"], budget_s=900,
                    kernel=["ABNF.validate", "ABNF._is_valid_close_status", "continuous_frame.validate", "WebSocket.recv_data_frame"]),
-        Obligation("P-close", p_close, [dict(n=n) for n in range(0, 5 if thorough else 4)],
+        Obligation("P-close", p_close, [dict(n=n) for n in range(0, 5 if thorough else 4)] + [dict(n=n, skip=True) for n in (0, 1, 2)],
                    bounds="all 65536 status codes (one 16-bit variable) x reasons of 0..%d arbitrary bytes" % (4 if thorough else 3),
                    must_cover=["accepted", "rejected"], budget_s=900, kernel=["ABNF.validate", "_is_valid_close_status", "validate_utf8"]),
         Obligation("P-seq", p_seq, seq, bounds="all histories of k<=%d frames over {text,binary,continuation}xFIN, ping, pong from an idle "
